@@ -322,9 +322,28 @@ def correspond(ctx):
         cases.append('v2l_eqb (pg_vertices (Polygon2D_remove_duplicate_vertices %s (1 # 100))) %s' % (
             L, core.coq_list([v2(tuple(p)) for p in r.vertices])))
         meta.append(('remove_duplicate_vertices', loop))
+    # the open-polyline clean-up (index loop with a skip counter) on decorated chains, also with runs of several removed vertices
+    for _ in range(ctx.n(60, 500)):
+        base = base_shape(rng)
+        base = base[:max(3, len(base) - 1)]
+        chain = []
+        for i in range(len(base) - 1):
+            a, b = base[i], base[i + 1]
+            chain.append(a)
+            for t in sorted(rng.sample([1, 2, 3, 4, 5, 6, 7], rng.choice([0, 1, 2, 3]))):
+                chain.append((a[0] + (b[0] - a[0]) * t / 8.0, a[1] + (b[1] - a[1]) * t / 8.0))
+        chain.append(base[-1])
+        if rng.random() < 0.5: chain = chain[::-1]
+        if len(chain) < 3:
+            continue
+        pl = Polyline2D([P2(p) for p in chain])
+        r = pl.remove_colinear_vertices(TOL)
+        cases.append('v2l_eqb (pl2_vertices (Polyline2D_remove_colinear_vertices (mkPolyline2 %s false) (1 # 100))) %s' % (
+            core.coq_list([v2(p) for p in chain]), core.coq_list([v2(tuple(p)) for p in r.vertices])))
+        meta.append(('Polyline2D.remove_colinear_vertices', chain))
     res = core.run_cases('C15_corr', ['Base', 'G0_vec', 'G1_shapes', 'G2_inter', 'G3_poly', 'G9_clean'], pre, cases)
     ctx.corr_cases += len(cases)
     for ok, m in zip(res, meta):
         if ok is not True:
-            ctx.corr_fail.append({'function': 'Polygon2D.' + m[0], 'input': repr(m[1:]),
+            ctx.corr_fail.append({'function': m[0] if '.' in m[0] else 'Polygon2D.' + m[0], 'input': repr(m[1:]),
                                   'result': 'model and implementation differ' if ok is False else 'model evaluation failed'})
